@@ -154,11 +154,12 @@ mod vk_iter {
                 assert!(admitted, "[C01 C07 iter-some] a chunk is returned only by the admitted holder");
                 assert!(c.begin_idx == b, "[C02 C03 iter-begin] begin index is the ticket");
                 let l = c.values.len();
+                // (contents first: a failed assertion ends its path)
+                let mut j = 0;
+                while j < 2 { if j < l { let x = c.values.next(); assert!(x.is_none() || x == Some(k + j), "[C01 C02 C03 C04 iter-contents] items are delivered in source order"); assert!(x.is_some(), "[C03 iter-exact-len] the chunk yields every item it announced"); } j += 1; }
                 assert!(l == items && l >= 1 && l <= n, "[C01 C03 iter-exact-len] the chunk holds exactly the items taken from the wrapped iterator, 1 <= len <= n");
                 assert!(l == n || ended, "[C01 C02 C03 iter-short-only-at-end] a chunk is shorter than n only when the source ended");
-                let mut j = 0;
-                while j < 2 { if j < l { assert!(c.values.next() == Some(k + j), "[C01 C02 C03 iter-contents] items are delivered in source order"); } j += 1; }
-                assert!(c.values.next().is_none(), "[C03 iter-exact-len] the chunk yields exactly the announced number of items");
+                assert!(l > 2 || c.values.next().is_none(), "[C03 iter-exact-len] the chunk yields exactly the announced number of items");
             }
             None => {
                 assert!(items == 0, "[C01 iter-none-lost] no item is taken from the wrapped iterator and then dropped");
@@ -270,11 +271,12 @@ mod vk_iter {
                 assert!(admitted, "[C01 C07 iter-some] a chunk is returned only by the admitted holder");
                 assert!(c.begin_idx == b, "[C02 C03 iter-begin] begin index is the ticket");
                 let l = c.values.len();
+                // (contents first: a failed assertion ends its path)
+                let mut j = 0;
+                while j < 2 { if j < l { let x = c.values.next(); assert!(x.is_none() || x == Some(k + j), "[C01 C02 C03 C04 iter-contents] items are delivered in source order"); assert!(x.is_some(), "[C03 iter-exact-len] the chunk yields every item it announced"); } j += 1; }
                 assert!(l == items && l >= 1 && l <= n, "[C01 C03 iter-exact-len] the chunk holds exactly the items taken from the wrapped iterator, 1 <= len <= n");
                 assert!(l == n || ended, "[C01 C02 C03 iter-short-only-at-end] a chunk is shorter than n only when the source ended");
-                let mut j = 0;
-                while j < 2 { if j < l { assert!(c.values.next() == Some(k + j), "[C01 C02 C03 iter-contents] items are delivered in source order"); } j += 1; }
-                assert!(c.values.next().is_none(), "[C03 iter-exact-len] the chunk yields exactly the announced number of items (stale slots are never yielded)");
+                assert!(l > 2 || c.values.next().is_none(), "[C03 iter-exact-len] the chunk yields exactly the announced number of items (stale slots are never yielded)");
             }
             None => {
                 assert!(items == 0, "[C01 iter-none-lost] no item is taken from the wrapped iterator and then dropped");
